@@ -21,7 +21,7 @@ impl Scenario for AdaptorsScenario {
         &tree::PROBES
     }
     fn rule(&self) -> &'static str {
-        "case = (frame type of 11, 1..4 primary leaves + signed/gain leaves with drawn kinds and lengths, leaf amplitude, \
+        "case = (frame type of 13, 1..4 primary leaves + signed/gain leaves with drawn kinds and lengths, leaf amplitude, \
          postfix build program of adaptors (depth <= 6, amplitude bound kept in range), seeded pull / is_exhausted / take / \
          rewrap / owner-pull schedule); non-trivial = at least one fault kind fired and at least one pull executed after \
          some leaf had already been advanced; distinct = hash of (ops, frames observed)"
@@ -49,7 +49,7 @@ impl Scenario for AdaptorsScenario {
         }
     }
     fn run(&self, src: &mut Source, obs: &mut Observer) -> Result<(), Violation> {
-        let fmt = src.cfg("frame", 0, 10, |r| r.range(0, 10));
+        let fmt = src.cfg("frame", 0, 12, |r| r.range(0, 12));
         obs.note(fmt as u64);
         match fmt {
             0 => tree::run_tree::<f32>(Flavor::Adaptors, src, obs),
@@ -62,7 +62,9 @@ impl Scenario for AdaptorsScenario {
             7 => tree::run_tree::<[u16; 32]>(Flavor::Adaptors, src, obs),
             8 => tree::run_tree::<[dasp_sample::types::I24; 2]>(Flavor::Adaptors, src, obs),
             9 => tree::run_tree::<[dasp_sample::types::U48; 2]>(Flavor::Adaptors, src, obs),
-            _ => tree::run_tree::<[i8; 4]>(Flavor::Adaptors, src, obs),
+            10 => tree::run_tree::<[i8; 4]>(Flavor::Adaptors, src, obs),
+            11 => tree::run_tree::<[i32; 12]>(Flavor::Adaptors, src, obs),
+            _ => tree::run_tree::<[f32; 9]>(Flavor::Adaptors, src, obs),
         }
     }
 }
